@@ -217,23 +217,18 @@ theorem Carries2.change (hwf : cfg.states.WF = true) (scope : Scope) (hsc : cfg.
       simp only [nonLocalRun, Bool.or_eq_true, Bool.not_eq_true']
       by_cases hloc : localRef cfg g tr = true
       · exfalso
-        simp only [localRef, Bool.and_eq_true, List.isEmpty_iff, List.all_eq_true, Bool.or_eq_true, bne_iff_ne,
-          ne_eq] at hloc
-        obtain ⟨hs0, hall⟩ := hloc
-        have hpre : scope.pre = [] := by rw [← hscope]; exact hs0
-        have hscope' : scope = cfg.root := by
-          rw [hpre] at hsc
-          simp only [Scope.walkTo, Option.some.injEq] at hsc
-          exact hsc.symm
-        subst hscope'
-        have hl := hall (tr, t) hmem
+        simp only [localRef, List.all_eq_true, Bool.or_eq_true, bne_iff_ne, ne_eq] at hloc
+        have hl := hloc (tr, t) hmem
         simp only [not_true_eq_false, false_or, hdest] at hl
+        rw [hscope] at hl
         have hdne : dest ≠ [] := by
           intro h0
           rw [h0] at hr
           simp [resolveTransition, Change.getState_nil] at hr
-        have hfresh := local_exits_fresh g t.source dest hdne hgb.nodup hpc hg.down hl
-        have hset := sameSet_mem (C03_exits_global cfg hwf conf hgb.conf_ok hgb.root1 dest r hr g.live hgb.nodup hgb.live_eq)
+        have hdne' : scope.pre ++ dest ≠ [] := by
+          intro h0; exact hdne (List.append_eq_nil_iff.1 h0).2
+        have hfresh := local_exits_fresh g (scope.pre ++ t.source) (scope.pre ++ dest) hdne' hgb.nodup hpc hg.down hl
+        have hset := sameSet_mem (C03_exits_scoped cfg hwf scope hsc conf hgb.conf_ok hgb.root1 dest r hr g.live hgb.nodup hgb.live_eq)
         rw [List.any_eq_true] at h
         obtain ⟨p, hpX, hpe⟩ := h
         exact hfresh p (hset p hpX) (by simpa using hpe)
@@ -251,7 +246,7 @@ theorem rinv2_closed (hwf : cfg.states.WF = true) (hR : NoRaise sc) (hC : NoCmds
       exact ⟨[.exec tr], rfl, Carries2.execMark cfg hwf v.conf tr⟩
     · exact ⟨[e], rfl, Carries2.mark cfg hwf v.conf e hm hfin hne (fun tr h => hx ⟨tr, h⟩)⟩
   execChange := by
-    intro scope x dest tr t s s' hsc hmem hscope hdest h
+    intro scope x dest tr t s s' hsc hmem hscope hdest _hnx h
     simp only [nchangeState] at h
     cases hr : resolveTransition cfg.root scope s.conf dest with
     | err e =>
@@ -261,7 +256,8 @@ theorem rinv2_closed (hwf : cfg.states.WF = true) (hR : NoRaise sc) (hC : NoCmds
     | oof => simp [hr, Res.state?] at h
     | ok r =>
       simp only [hr] at h
-      obtain ⟨s1, h1, c1, g1⟩ := exitAll_ok sub sc cfg hR hC x r.exits { s with glog := s.glog ++ [.exec tr] }
+      obtain ⟨s1, h1, c1, g1⟩ := exitAll_ok sub sc cfg hR hC x r.exits
+        { s with glog := s.glog ++ [.exec tr], exited := s.exited ++ r.exitNames }
       obtain ⟨s2, h2, c2, g2⟩ := enterAll_ok sub sc cfg hR hC x r.enters { s1 with conf := r.tree }
       simp only [h1, Res.bind, h2, Res.state?, Option.some.injEq] at h
       subst h
